@@ -5,6 +5,22 @@ COMMON_NOTE = ("Trusted: Coq 8.16.1 kernel + vm_compute, no axioms (each propert
                "ExtrOcamlBasic extraction + OCaml driver; the Go correspondence harness; libraries modelled rather than verified are listed in DESIGN.md section 8. ")
 
 CHECKS = [
+    {"property_id": "C01",
+     "text": "Theorems C01_plain / C01_roundtrip / C01_stream: for every key, chain value, checksum setting, timestamp and every list of well-formed messages that fits the 16 bit length, the model of Read applied to the model of Write returns exactly the messages, for single frames and for streams on chained cipher states (Gallina Rijndael-256/CBC, cipher correctness proved, no premise left). The models are compared with rscp.Write/rscp.Read byte for byte (ciphertext, plaintext, decoded tree) on generated trees and boundary sizes, and Read(Write(ms)) == ms is evaluated directly on the real code.",
+     "design_ref": "6/C01", "technique": "Coq proof (structural induction, CBC/Rijndael inverse) + byte-exact correspondence",
+     "note": COMMON_NOTE + "rijndael256, crypto/cipher, hash/crc32, encoding/binary are modelled and compared on every run."},
+    {"property_id": "C02",
+     "text": "PARTIAL. Proved on the model: fuel adequacy (S(length) units always suffice, more fuel never changes the answer), linear work and nesting depth (<= length/7), bounded buffering and frame size. Absence of Go panics/hangs is carried by the correspondence: the model predicts the verdict of every generated input (structural mutations at every nesting level, all type codes, control words, truncations, extensions, random blocks, chunkings) and a recovered panic or timeout counts as a violation with the input as replay.",
+     "design_ref": "6/C02", "technique": "Coq proof of totality/fuel/work bounds + mutation-based correspondence (panic = violation)",
+     "note": COMMON_NOTE + "Go runtime panics and wall-clock promptness cannot be expressed in Gallina; they are observed, not proved."},
+    {"property_id": "C03",
+     "text": "Theorem C03_accept_iff: the model decoder accepts a plaintext exactly when it satisfies the declarative grammar WellFormed (magic, control bits, version, covered length, items with defined types and agreeing lengths, container lengths exact, zero padding, CRC) and then returns exactly the encoded items; C03_functional; C03_read_step and C03_chunks for block-aligned chunked delivery through the cipher. The real Read is compared with the model (Accept tree / incomplete / error) on the mutation families.",
+     "design_ref": "6/C03", "technique": "Coq proof of decoder <-> grammar equivalence + correspondence on structural mutations",
+     "note": COMMON_NOTE},
+    {"property_id": "C04",
+     "text": "Theorems C04_burst, C04_two_bits, C04_one_bit: a valid checksummed frame altered in timestamp/payload/CRC by a pattern confined to 32 consecutive bits, or of one or two bits anywhere, is never accepted - from the linear algebra of the CRC register (T linear over xor, injective on 32 bit states; order of x checked by vm_compute up to the maximal frame length 8*65557 bits, bound stated). hash/crc32 is compared with the Gallina CRC and the position of the check with the real Read on single flips, pairs, bursts and random corruptions.",
+     "design_ref": "6/C04", "technique": "Coq proof (CRC linear algebra + bounded orbit sweep lifted by lemma) + correspondence on bit-level corruptions",
+     "note": COMMON_NOTE + "The two-bit theorem is bounded by the maximal frame length (8*65557 bits), stated in the theorem."},
     {"property_id": "C14",
      "text": "Coherence of the vocabularies is proved in Coq over the tables regenerated from the source on every run (finite sweeps by vm_compute lifted with forallb_forall; the JSON round trip of a tag for all 2^32 tags); the model's lookup and JSON functions are compared with Tag/DataType methods on all 3564 tags, all 256 type codes and random unknown tags.",
      "design_ref": "6/C14", "technique": "Coq proof over generated tables (translator) + exhaustive correspondence",
@@ -13,4 +29,4 @@ CHECKS = [
 
 _todo = "the machinery for this property is not built yet in this commit (planned: Coq model + theorem + correspondence, see DESIGN.md section 6)"
 NOT_APPLICABLE = [{"property_id": p, "reason": _todo} for p in
-                  ["C01", "C02", "C03", "C04", "C05", "C06", "C07", "C08", "C09", "C10", "C11", "C12", "C13", "C15", "C16", "C17", "C18"]]
+                  ["C05", "C06", "C07", "C08", "C09", "C10", "C11", "C12", "C13", "C15", "C16", "C17", "C18"]]
